@@ -2,3 +2,9 @@ import SJ.Props.C20
 #print axioms SJ.Props.C20.c20_verbatim
 #print axioms SJ.Props.C20.c20_nested
 #print axioms SJ.Props.C20.c20_from_str_sound
+#print axioms SJ.Props.C20.c20_accessors
+#print axioms SJ.Props.C20.c20_parsed_accessors
+#print axioms SJ.Props.C20.c20_as_f32
+#print axioms SJ.Props.C20.c20_typed_same
+#print axioms SJ.Props.C20.c20_typed_same_value
+#print axioms SJ.Props.C20.c20_typed_number_identical
